@@ -1,9 +1,13 @@
 """C02 / C15 (every syntactic form is resolved by the code for THAT form, none is skipped): the dispatchers Resolver::{stmt, expr}, extracted as
 they are.  The AST enums are a model (each variant carries a node identity), the per-form methods are stubs that log their own name and node —
 enums, stubs and the table are generated below.  break / continue have nothing to resolve; an expression statement and an implicit return
-resolve their expression."""
+resolve their expression.  Of Resolver::atom the match over the primary form is taken (R18): a lambda, a grouping, a list / tuple / map literal, an
+interpolated string, a channel and every kind of name are resolved; the five plain literals have nothing to resolve."""
 FORMS = {
   'Expr': [('Assign', 'assign'), ('Send', 'send'), ('AssignBinary', 'assign_binary'), ('Ternary', 'ternary'), ('Binary', 'binary'), ('Unary', 'unary'), ('Atom', 'atom')],
+  'Primary': [('Channel', 'channel'), ('Grouping', 'expr!'), ('Interpolation', 'interpolation'), ('Ident', 'identifier'), ('InstanceAccess', 'instance_access'),
+              ('Self_', 'self_'), ('Super', 'super_'), ('Lambda', 'lambda'), ('List', 'collection'), ('Tuple', 'collection'), ('Map', 'map'),
+              ('False', None), ('Nil', None), ('Number', None), ('String', None), ('True', None)],
   'Stmt': [('Expr', 'expr!'), ('ImplicitReturn', 'expr!'), ('Import', 'import'), ('For', 'for_'), ('If', 'if_'), ('Return', 'return_'), ('Launch', 'launch'),
            ('Raise', 'raise'), ('While', 'while_'), ('Try', 'try_'), ('Continue', None), ('Break', None)],
 }
@@ -28,18 +32,21 @@ def generate(repo):
       else: arms.append('%s::%s(n) => seq![Ev::Ran(%s, n.id)],' % (en, v, _w(m)))
     return ' '.join(arms)
   spec = ('pub open spec fn expr_evs(e: Expr) -> Seq<Ev> { match e { %s } }\n' % table('Expr')
-          + 'pub open spec fn stmt_evs(s: Stmt) -> Seq<Ev> { match s { %s } }\n' % table('Stmt'))
+          + 'pub open spec fn stmt_evs(s: Stmt) -> Seq<Ev> { match s { %s } }\n' % table('Stmt')
+          + 'pub open spec fn primary_evs(p: Primary) -> Seq<Ev> { match p { %s } }\n' % table('Primary'))
   return dict(prelude=prelude + spec, contracts='')
 
 UNIT = dict(
   name='dispatchr',
   properties=['C02', 'C15'],
-  items=[('laythe_vm/src/compiler/resolver.rs', [("impl<'a, 'src> Resolver<'a, 'src>", ['stmt', 'expr'])])],
+  items=[('laythe_vm/src/compiler/resolver.rs', [("impl<'a, 'src> Resolver<'a, 'src>", ['stmt', 'expr', 'atom'])])],
   rewrites=[
     ('R5', 'kind:implhdr', dict(pat=r"^impl<'a, 'src> Resolver<'a, 'src> \{", rep='impl Resolver {', regex=True, count=1)),
     ('R5', 'Resolver::*', dict(pat=r"<'src>", rep='', regex=True, optional=True)),
     ('R5', 'Resolver::*', dict(pat='ast::', rep='', optional=True)),
     ('R7', 'Resolver::*', dict(pat=r'^(\s*(?:///?[^\n]*\n\s*)*)fn ', rep=r'\1pub fn ', regex=True, optional=True)),
+    # atom: only the match over the primary form is taken (R18); the walk over the trailers (split_first_mut) is dropped from this unit
+    ('R18', 'Resolver::atom', dict(scrutinee=r'&mut atom\.primary', sig='pub fn verif_atom_primary(&mut self, verif_primary: &mut Primary)', var='verif_primary')),
   ],
   generate=generate,
   assumption_ids=['A-resolver'],
